@@ -1,12 +1,19 @@
 import PynetVerif.Model.SExp
-import PynetVerif.Model.Status
+import PynetVerif.Driver.Status
+import PynetVerif.Driver.Fsm
 open PynetVerif
+
+/-- Each model contributes `String → List SExp → Option SExp` (none = not my op). -/
+def handlers : List (String → List SExp → Option SExp) :=
+  [Driver.statusOps, Driver.fsmOps]
 
 def handle (e : SExp) : SExp :=
   match e with
   | .list (.sym "echo" :: rest) => .list rest
-  | .list [.sym "status", .nat c] => .nat (Status.category c).toNat
-  | .list [.sym "scufinal", .sym rq, .nat c] => SExp.ofBool (Status.scuFinal (rq == "T") c)
+  | .list (.sym op :: args) =>
+    match handlers.findSome? (fun h => h op args) with
+    | some r => r
+    | none => .sym "ERR:bad-op"
   | _ => .sym "ERR:bad-op"
 
 partial def loop (h : IO.FS.Stream) (out : IO.FS.Stream) : IO Unit := do
